@@ -1,6 +1,7 @@
 /-
   Line-protocol driver of the Lean model (core-only, compiled to an executable).
-  One request per input line, `<engine>\t<payload>`; one answer line per request.
+  One request per input line, `<engine>\t<payload>[\t<extra>]`; one answer line per request:
+  `<model observation>[\t<spec observation>]`.
 -/
 import LispModel
 open LispModel
@@ -8,6 +9,138 @@ open LispModel
 def splitBar (s : String) : List String := s.splitOn " | "
 
 def tf (b : Bool) : String := if b then "T" else "F"
+
+def hexBytes (s : String) : Option (List UInt8) := Proto.hexToBytes s.toList
+
+def charsHex (cs : List Char) : String := Proto.hexEncode (String.ofList cs)
+
+/-! ### scan -/
+
+def kindStr : Scan.Kind → String
+  | .ident => "Ident" | .int => "Int" | .float => "Float" | .string => "String"
+  | .keyword => "Keyword" | .rawString => "RawString" | .char c => s!"C{c}"
+
+def renderTokens (r : Scan.TokResult) : String :=
+  match r with
+  | .error _ _ => "err"
+  | .ok toks => "ok" ++ String.join (toks.map fun t =>
+      s!" {kindStr t.kind}:{Proto.hexEncode (Read.tokStr t)}:{t.line}:{t.column}:{t.offset}")
+
+def hasFloat (bytes : List UInt8) : Bool :=
+  match Scan.tokenize bytes with
+  | .ok toks => toks.any (·.kind == .float)
+  | _ => false
+
+instance : BEq Scan.Kind := ⟨fun a b => decide (a = b)⟩
+
+/-! ### read -/
+
+def errClass : Read.RErr → String
+  | .eof c => "eof:" ++ c
+  | .unexpected c => "unexpected:" ++ c
+  | .trailing => "trailing"
+  | .empty => "empty"
+  | .underflow => "underflow"
+  | .badtoken => "badtoken"
+  | .badint => "badint"
+  | .oddmap => "oddmap"
+  | .badkey => "badkey"
+  | .badsetitem => "badsetitem"
+  | .rawEof => "eof:¬"
+  | .floaterr => "floaterr"
+  | .extern _ => "extern"
+  | .panic site => "PANIC " ++ site
+
+/-- `repl.multiLine` on the reader's error -/
+def multiLine : Read.RErr → Bool
+  | .eof c => c == ")" || c == "]" || c == "}" || c == "»"
+  | .rawEof => true
+  | _ => false
+
+def renderRead (r : Except Read.RErr Val) : String :=
+  match r with
+  | .ok v => "ok " ++ Proto.renderPlain v
+  | .error (.panic site) => "PANIC " ++ site
+  | .error e => "err " ++ errClass e ++ " ml=" ++ tf (multiLine e)
+
+def parseCfg (flags : String) (phs : Option (List (String × Val))) : Read.Cfg :=
+  let fs := flags.splitOn ","
+  { hasEnv := fs.contains "e1", phs := if fs.contains "p1" then some (phs.getD []) else none,
+    module := (fs.find? (·.startsWith "m=")).bind fun m => Proto.hexDecode ((m.drop 2).toString) }
+
+/-! ### print matching up to map/set entry order (driver only) -/
+
+def stripPrefix (p l : List Char) : Option (List Char) :=
+  if p.isPrefixOf l then some (l.drop p.length) else none
+
+mutual
+partial def matchVal (v : Val) (text : List Char) : Option (List Char) :=
+  match v with
+  | .list xs _ => (stripPrefix ['('] text).bind fun t => (matchSeq xs t true).bind (stripPrefix [')'])
+  | .vec xs _ => (stripPrefix ['['] text).bind fun t => (matchSeq xs t true).bind (stripPrefix [']'])
+  | .map kvs => (stripPrefix ['{'] text).bind fun t => (matchMap kvs t true).bind (stripPrefix ['}'])
+  | .set ks => (stripPrefix ['#', '{'] text).bind fun t => (matchSet ks t true).bind (stripPrefix ['}'])
+  | v => stripPrefix (Print.print v) text
+partial def matchSeq (xs : List Val) (text : List Char) (first : Bool) : Option (List Char) :=
+  match xs with
+  | [] => some text
+  | x :: r =>
+    let t := if first then some text else stripPrefix [' '] text
+    t.bind fun t => (matchVal x t).bind fun t' => matchSeq r t' false
+partial def matchMap (kvs : List (String × Val)) (text : List Char) (first : Bool) : Option (List Char) :=
+  if kvs.isEmpty then some text else
+  let t := if first then some text else stripPrefix [' '] text
+  t.bind fun t =>
+    -- the entry whose printed key comes next (keys are pairwise different)
+    kvs.findSome? fun (k, v) =>
+      (stripPrefix (Print.prString true k ++ [' ']) t).bind fun t1 =>
+        (matchVal v t1).bind fun t2 => matchMap (aerase k kvs) t2 false
+partial def matchSet (ks : List String) (text : List Char) (first : Bool) : Option (List Char) :=
+  if ks.isEmpty then some text else
+  let t := if first then some text else stripPrefix [' '] text
+  t.bind fun t =>
+    ks.findSome? fun k =>
+      (stripPrefix (Print.prString true k) t).bind fun t1 =>
+        match t1 with
+        | ' ' :: _ => matchSet (ks.erase k) t1 false
+        | '}' :: _ => matchSet (ks.erase k) t1 false
+        | _ => none
+end
+
+def printMatches (v : Val) (text : List Char) : Bool := matchVal v text == some []
+
+partial def hasOpaque : Val → Bool
+  | .opaque _ => true
+  | .goerr _ => true
+  | .list xs _ => xs.any hasOpaque
+  | .vec xs _ => xs.any hasOpaque
+  | .map kvs => kvs.any fun kv => hasOpaque kv.2
+  | _ => false
+
+def roundTrip (v : Val) : String :=
+  match Read.readStr {} (String.ofList (Print.print v)).toUTF8.toList with
+  | .ok v' => if structEqB v v' then "rt=ok" else "rt=FAIL"
+  | .error e => "rt=err:" ++ errClass e
+
+/-! ### preamble -/
+
+def renderP (r : Preamble.PRes) : String :=
+  match r with
+  | .ok v => "ok " ++ Proto.renderPlain v
+  | .err (.panic s) => "PANIC " ++ s
+  | .err e => "err " ++ errClass e
+  | .badPreamble => "err badpreamble"
+
+/-- Go's `AddPreamble` output = the model's, up to the iteration order of every Go map involved -/
+partial def matchPreamble (phs : List (String × Val)) (text : List Char) (src : List Char) : Bool :=
+  if phs.isEmpty then text == '\n' :: src
+  else phs.any fun (k, v) =>
+    match stripPrefix ((";; " ++ k ++ " ").toList) text with
+    | some t =>
+      (match matchVal v t with
+       | some ('\n' :: rest) => matchPreamble (aerase k phs) rest src
+       | _ => false)
+    | none => false
 
 def handle (line : String) : String :=
   match line.splitOn "\t" with
@@ -18,6 +151,70 @@ def handle (line : String) : String :=
   | ["echo", payload] =>
     match Proto.parseLine payload with
     | some v => Proto.renderPlain v
+    | none => "bad-op"
+  | ["scan", payload] =>
+    match hexBytes payload with
+    | some bs => renderTokens (Scan.tokenize bs)
+    | none => "bad-op"
+  | ["read", payload] =>
+    -- payload: <flags> <hex> [| <placeholder map>]
+    match splitBar payload with
+    | head :: more =>
+      match head.splitOn " " with
+      | [flags, hx] =>
+        match hexBytes (hx.drop 1).toString with
+        | some bs =>
+          let phs := match more with
+            | [m] => match Proto.parseLine m with
+              | some (.map kvs) => some kvs
+              | _ => none
+            | _ => none
+          renderRead (Read.readStr (parseCfg flags phs) bs)
+        | none => "bad-op"
+      | _ => "bad-op"
+    | _ => "bad-op"
+  | ["print", payload, extra] =>
+    -- payload: value; extra: hex of the text Go's PRINT produced
+    match Proto.parseLine payload, hexBytes extra with
+    | some v, some bs =>
+      let text := (Scan.decodeAll bs).map (fun r => Char.ofNat r.ch)
+      let pm := printMatches v text
+      s!"pm={tf pm} {roundTrip v}\t{if readableData v then "pm=T rt=ok" else "-"}"
+    | _, _ => "bad-op"
+  | ["reread", payload] =>
+    match hexBytes payload with
+    | some bs =>
+      match Read.readStr { hasEnv := true } bs with
+      | .ok v =>
+        if hasOpaque v then "ok opaque" else
+        let r := roundTrip v
+        s!"ok {r}\tok rt=ok"
+      | .error (.panic s) => "PANIC " ++ s
+      | .error _ => "err"
+    | none => "bad-op"
+  | ["preamble", payload, extra] =>
+    -- payload: <hex source> | <placeholder map>; extra: hex of Go's AddPreamble output
+    match splitBar payload, hexBytes extra with
+    | [hx, m], some goText =>
+      match hexBytes hx, Proto.parseLine m with
+      | some src, some (.map phs) =>
+        let viaPreamble := Preamble.readWithPreamble { hasEnv := true } goText
+        let direct := Read.readStr { hasEnv := true, phs := some phs } src
+        let chars (bs : List UInt8) := (Scan.decodeAll bs).map (fun r => Char.ofNat r.ch)
+        let sameText := matchPreamble phs (chars goText) (chars src)
+        let d := renderRead direct
+        let claimed := phs.all fun kv => readableData kv.2
+        let via := match viaPreamble with
+          | .ok v => renderRead (.ok v)
+          | .err e => renderRead (.error e)
+          | .badPreamble => "err badpreamble ml=F"
+        s!"text={tf sameText} {via} || {d}\t{if claimed then s!"text=T {d} || {d}" else "-"}"
+      | _, _ => "bad-op"
+    | _, _ => "bad-op"
+  | ["rwp", payload] =>
+    -- READWithPreamble on arbitrary bytes (C05)
+    match hexBytes payload with
+    | some bs => renderP (Preamble.readWithPreamble { hasEnv := true } bs)
     | none => "bad-op"
   | _ => "bad-op"
 
